@@ -71,6 +71,14 @@ def fkey(x) -> str:
     return str(b)
 
 
+def key2f(k: str) -> float:
+    """inverse of fkey"""
+    if k == "n":
+        return float("nan")
+    v = int(k)
+    return bits2f(v) if v >= 0 else -bits2f(-v)
+
+
 def fbits(x) -> str:
     x = float(x)
     return "nan" if x != x else str(f2bits(x))
@@ -338,6 +346,8 @@ def finish(ctx: Ctx, module: str, theorems: list[str], build: LeanBuild, audit: 
     os.makedirs(EVIDENCE_DIR, exist_ok=True)
     with open(os.path.join(EVIDENCE_DIR, ctx.prop + ".json"), "w") as f:
         json.dump(ev, f, indent=1, default=str)
+    for b in ctx.broken[:6]:
+        print("BROKEN-OBLIGATION %s: %s" % (b["name"], json.dumps(b["detail"], default=str)[:700]))
     for ln in lines:
         print(ln)
     print("%s: %s tier=%s seed=%d theorems=%d/%d evaluations=%d failures=%d broken=%d wall=%.1fs" % (
